@@ -110,6 +110,8 @@ type Thread struct {
 	panicVal any
 	stack    string
 	tag      string
+	bornAt   int // value of the scheduler's life-cycle counter when the thread was created / ended
+	endedAt  int
 
 	hist   uint64
 	steps  int
@@ -277,6 +279,7 @@ type Sched struct {
 	onStep  []func() string
 	onEnd   []func() string
 	atRest  []func()
+	life    int // counts thread creations and terminations
 	outcome []string
 
 	monitor *Obj
@@ -330,6 +333,8 @@ func GoNamed(name string, f func()) *Thread {
 	// code, which the detector checks) it commutes with everything and needs no
 	// scheduling point of its own.
 	t.fresh = true
+	s.life++
+	t.bornAt = s.life
 	s.threads = append(s.threads, t)
 	go func() {
 		<-t.wake
@@ -343,6 +348,8 @@ func GoNamed(name string, f func()) *Thread {
 				}
 			}
 			t.done = true
+			s.life++
+			t.endedAt = s.life
 			t.pend = nil
 			s.yield <- t
 		}()
